@@ -62,6 +62,25 @@ type world struct {
 
 	gateReading atomic.Bool
 	toGate      chan []byte
+
+	shows   int       // cursor-show sequences seen (the end of a redisplay)
+	lastOut time.Time // last output of the library
+	height  int
+}
+
+// resize changes the width of the terminal: the pty, both emulators.
+func (w *world) resize(width int) {
+	w.mu.Lock()
+	defer w.mu.Unlock()
+	w.vte.Resize(width)
+	w.xt.Resize(width)
+	unix.IoctlSetWinsize(int(w.slave.Fd()), unix.TIOCSWINSZ, &unix.Winsize{Row: uint16(w.height), Col: uint16(width)})
+}
+
+func (w *world) showsAndQuiet() (int, time.Duration) {
+	w.mu.Lock()
+	defer w.mu.Unlock()
+	return w.shows, time.Since(w.lastOut)
 }
 
 func (w *world) reset(width, height int) {
@@ -81,6 +100,7 @@ func (w *world) reset(width, height int) {
 	}
 	w.vte.Barrier = func(n int) { w.barrier <- n }
 	w.out = nil
+	w.height = height
 	unix.IoctlSetWinsize(int(w.slave.Fd()), unix.TIOCSWINSZ, &unix.Winsize{Row: uint16(height), Col: uint16(width)})
 }
 
@@ -95,6 +115,8 @@ func (w *world) pump() {
 		// the pty's ONLCR doubles the CR: fold it back
 		data := []byte(strings.ReplaceAll(string(buf[:n]), "\r\r\n", "\r\n"))
 		w.out = append(w.out, data...)
+		w.shows += strings.Count(string(data), "\x1b[?25h")
+		w.lastOut = time.Now()
 		w.vte.Write(data)
 		w.xt.Write(data)
 		w.mu.Unlock()
@@ -222,6 +244,32 @@ func (g *gate) Read(p []byte) (int, error) {
 			// the main goroutine is in its read from here on: the cursor report the application goroutine
 			// asks for must come through this read (set before the goroutine can emit its query)
 			g.w.gateReading.Store(true)
+			if a.Kind == "resize" {
+				// the terminal is resized (Text: the new width, "burst:" for three signals in a row) while the main
+				// loop waits for input: SIGWINCH, and the redisplay of the library's resize goroutine is awaited
+				// (its end: the cursor shown again, then no output for a while)
+				width, _ := strconv.Atoi(strings.TrimPrefix(a.Text, "burst:"))
+				n := 1
+				if strings.HasPrefix(a.Text, "burst:") {
+					n = 3
+				}
+				g.w.resize(width)
+				mark, _ := g.w.showsAndQuiet()
+				for k := 0; k < n; k++ {
+					syscall.Kill(os.Getpid(), syscall.SIGWINCH)
+				}
+				go func() {
+					defer close(done)
+					deadline := time.Now().Add(3 * time.Second)
+					for time.Now().Before(deadline) {
+						time.Sleep(10 * time.Millisecond)
+						if sh, quiet := g.w.showsAndQuiet(); sh > mark && quiet > 40*time.Millisecond {
+							return
+						}
+					}
+				}()
+				continue
+			}
 			go func() {
 				defer close(done)
 				defer func() { recover() }()
